@@ -7,6 +7,7 @@
     registry of custom SPARQL functions as it found them.
 (A) the global state after each call predicted by Impl `History.step` vs the snapshot taken in the worker.
 """
+import os
 import json
 import random
 import subprocess
@@ -133,7 +134,7 @@ def gen_history(rng):
 
 
 def run_worker(steps, skip):
-    p = subprocess.run(["/venv/bin/python", "/verif/harness/hist_worker.py"], input=json.dumps({"steps": steps, "skip_calls_before_last": skip}).encode(),
+    p = subprocess.run(["/venv/bin/python", os.path.join(os.path.dirname(os.path.dirname(os.path.abspath(__file__))), "hist_worker.py")], input=json.dumps({"steps": steps, "skip_calls_before_last": skip}).encode(),
                        stdout=subprocess.PIPE, stderr=subprocess.PIPE, timeout=600)
     out = [json.loads(l) for l in p.stdout.decode().splitlines() if l.startswith("{")]
     return out, p.returncode, p.stderr.decode()[-600:]
